@@ -422,6 +422,38 @@ def main():
         c.sample({"op": "Big5ToUtf8", "input": " ".join("%02X" % b for b in gb[7]), "result": o7[7]})
 
 
+    # ------------------------------------------------------------ several goroutines of one process (validation only)
+    # The converters are called by concurrent request handlers. Op 13 takes the answer each call gives alone, then lets 8
+    # goroutines of the driver process repeat their own calls at the same time: every answer must be the sequential one.
+    # (A converter that stages its work in package-level state passes every sequential sweep above.) Implementation only: the
+    # executable model has no parallelism; what each call must answer alone is decided by the sections above.
+    conc_pool = [(1, s) for s, r in zip(gb, o7) if r.split()[:1] == ["0"] and 4 <= len(s) <= 60] + \
+                [(2, s) for s, r in zip(gu, o8) if r.split()[:1] == ["0"] and 4 <= len(s) <= 60]
+    n_batches, rounds = (40, 6000) if thorough else (8, 2500)
+    conc_lines = []
+    for bi in range(n_batches):
+        grp = [rng.choice(conc_pool) for _ in range(8)]
+        if bi % 2 == 0:   # same direction in every goroutine: the most likely sharing
+            same = [g for g in conc_pool if g[0] == 1 + (bi // 2) % 2]
+            grp = [rng.choice(same) for _ in range(8)]
+        conc_lines.append("13 %d|" % rounds + "|".join("%d %s" % (op, toks(s)) for op, s in grp))
+    conc_io = vf.run_impl(impl, "C17", conc_lines, deadline_ms=120000)
+    c.count(len(conc_lines) * 8 * rounds, "concurrent conversions (8 goroutines)")
+    c.cov["concurrent_callers"] = {"batches": len(conc_lines), "goroutines": 8, "rounds": rounds}
+    for l, r in zip(conc_lines, conc_io):
+        f = r.split()
+        if f[:1] == ["7"]:
+            continue
+        if f[:1] != ["0"]:
+            c.violation("concurrent-conversions-status", "8 goroutines converting at once: the driver ends with status %s" % f[:1], {"cases": [l], "expected": "0 0", "got": r[:400]})
+        elif f[1] != "0":
+            j = int(f[2]); g = l.split("|")[1 + j].split()
+            c.violation("concurrent-conversions-differ", "8 goroutines of one process converting their own strings at once (%d rounds each): %s answers differ from what the same call "
+                        "answers alone; first: goroutine %d, %s([%s]) = [%s]" % (rounds, f[1], j, "Big5ToUtf8" if g[0] == "1" else "Utf8ToBig5",
+                        " ".join("%02X" % int(x) for x in g[1:]), " ".join("%02X" % int(x) for x in f[4:])), {"cases": [l], "expected": "0 0", "got": r[:400]})
+        else:
+            c.nontrivial(("conc", l[:40]))
+
     # ------------------------------------------------------------ initialisation paths (the tables are package state)
     # Every scenario is ONE case line run in a fresh driver process: a history of start-up attempts through
     # types.InitConfig() with the table paths taken from the configuration (0 good file, 1 missing file, 2 a directory,
@@ -709,7 +741,10 @@ def main():
                           "start-up environment: 'a symbolic link reads as the file it finally points to' and 'postConfig() returns the time-zone error before initBig5()' are "
                           "the model (theorems C17_start_*); that the real os.Open / io.ReadAll / time.LoadLocation behave so is validated, not proved: real links in a scratch "
                           "directory, real zone names, and table exactness / round trip demanded after every start-up that returned nil. A host without zoneinfo is represented "
-                          "by an unknown zone name (same error return); FIFOs and other special files as table paths are not exercised"])
+                          "by an unknown zone name (same error return); FIFOs and other special files as table paths are not exercised",
+                          "concurrent callers (op 13): that the converters share no state between goroutines of one process is validated by a parallel run (8 goroutines, "
+                          "every answer must be the one the call gives alone), not proved - the executable model has no parallelism; a fixed number of overlapping calls "
+                          "gives overwhelming, not total, certainty; on code without shared state no schedule can produce a differing answer, so the clean verdict cannot flip"])
 
 
 def is_mutual_big5(s, mutual):
